@@ -148,6 +148,10 @@ def run_exact(ctx, case, shape, name, linear):
                 ctx.fail('method="linear" did not raise ValueError on a grammar that is not linearly recursive', dict(case, config=cfg),
                          'returned', 'ValueError', tags=['linear-no-error', name])
                 continue
+            missing = [str(x) for x in info['XL'] if x not in res]
+            if missing:
+                ctx.fail('sum_products has no entry for some nonterminal', dict(case, config=cfg), missing, None, tags=['missing-entry', name])
+                continue
             out = [semgen.dense_list(res[x]) for x in info['XL']]
             ok = all(semgen.val_matches(o, s, name, torch.float64) for o, s in zip(out, lfp))
             if not ok and not warns:
@@ -189,6 +193,10 @@ def pipeline(ctx, case, sh, name, method, kmax, res, warns, err, info):
     if bool(warns) != warned:
         ctx.disagree(f'warning flag: sum_products {"warned" if warns else "did not warn"}, Pipe.sumProducts {"warns" if warned else "does not"}',
                      dict(case, config=cfg), warns, warned)
+    missing = [str(x) for x in info['XL'] if x not in res]
+    if missing:
+        ctx.fail('sum_products has no entry for some nonterminal', dict(case, config=cfg), missing, None, tags=['missing-entry', name])
+        return
     out = [semgen.dense_list(res[x]) for x in info['XL']]
     if not all(semgen.val_matches(o, s, name, torch.float64) for o, s in zip(out, val)):
         ctx.disagree('value: sum_products differs from Pipe.sumProducts (same method, same budget)', dict(case, config=cfg), out,
@@ -239,6 +247,10 @@ def run_real(ctx, case, shape, linear):
                 if method == 'linear' and not linear:
                     ctx.fail('method="linear" did not raise ValueError on a grammar that is not linearly recursive', dict(case, config=cfg),
                              'returned', 'ValueError', tags=['linear-no-error', name])
+                    continue
+                if any(x not in res for x in info['XL']):
+                    ctx.fail('sum_products has no entry for some nonterminal', dict(case, config=cfg), [str(x) for x in info['XL'] if x not in res],
+                             None, tags=['missing-entry', name])
                     continue
                 out = [semgen.dense_list(res[x]) for x in info['XL']]
                 if name == 'log':
